@@ -6,6 +6,7 @@
     ensures
         is_suffix(wire(final(reader)), wire(old(reader))),
         fault_free(old(reader)) ==> fault_free(final(reader)),
+        wrote(final(reader)) == wrote(old(reader)), origin(final(reader)) == origin(old(reader)),
         max_buf_len == 16384 ==> (res matches Ok(n) ==> strict_line(wire(old(reader))) == Some((final(buf)@, n as int)) && n >= 2 && n <= wire(old(reader)).len()
                     && wire(final(reader)) == wire(old(reader)).skip(n as int) && final(buf)@.len() == n - 2),
         final(buf)@.len() <= max_buf_len,
